@@ -32,7 +32,7 @@ ASSUMPTIONS = [
 ]
 TRUSTED = ["z3 5.1 (UFLIA)", "vt.dtmodel", "vt.sym explorer", "pycron, pytz (uninterpreted)"]
 BOUNDS = {"now": "unbounded Int us", "timedelta offset": "unbounded Int us", "zones": "1 uninterpreted zone", "expressions": "1 uninterpreted expression", "loops": "none"}
-REQUIRED_COVERS = ["due", "not_due", "none", "td", "zone"]
+REQUIRED_COVERS = ["due", "not_due", "none", "td", "zone", "second_evaluation"]
 
 ZONES = ["Europe/Berlin", "America/New_York", "Australia/Lord_Howe", "Australia/Sydney", "Asia/Kolkata", "Asia/Kathmandu",
          "Pacific/Chatham", "America/St_Johns"]
@@ -65,6 +65,25 @@ def harness(c: sym.Ctx, case: Any) -> None:
     if c.mode == "sym":
         dtmodel.CLOCK = dtmodel.Clock(now)
         run = _sched.sym_run_module()
+        second = c.flag("second_evaluation_in_the_same_process")
+        if second:
+            # an earlier evaluation at an arbitrary earlier instant (same schedule) must not influence this one
+            c.cover("second_evaluation")
+            earlier = c.int("earlier")
+            c.assume(earlier <= now)
+            dtmodel.CLOCK = dtmodel.Clock(earlier)
+            off0: Any = None
+            if kind == "td":
+                off0 = TD(_us=td)
+            elif kind == "zone":
+                off0 = "Z/One"
+            try:
+                run.get_task_delay(types.SimpleNamespace(cron="EXPR", cron_offset=off0, time=None, task_name="t", schedule_id="s"))
+            except Exception as exc:  # noqa: BLE001
+                c.check(False, "unexpected_exception", exc=repr(exc))
+                return
+            del run.is_now.calls[:]
+            dtmodel.CLOCK = dtmodel.Clock(now)
         off: Any = None
         if kind == "td":
             off = TD(_us=td)
@@ -97,6 +116,19 @@ def harness(c: sym.Ctx, case: Any) -> None:
 
     zone = c.assignment.get("zone_name", ZONES[0])
     now = int(now)
+    if dict(c.fixed_choices).get("second_evaluation_in_the_same_process"):
+        earlier = int(c.assignment.get("earlier", now))
+        off_e: Any = None
+        if kind == "td":
+            off_e = real_dt.timedelta(microseconds=int(td))
+        elif kind == "zone":
+            off_e = zone
+        with _sched.real_run_module(min(earlier, now)) as run0:
+            try:
+                run0.get_task_delay(ScheduledTask(task_name="t", labels={}, args=[], kwargs={}, cron="* * * * *", cron_offset=off_e))
+            except Exception as exc:  # noqa: BLE001
+                c.check(False, "unexpected_exception", exc=repr(exc))
+                return
     wall = _expected_wall(now, kind, int(td), zone)
     off = None
     if kind == "td":
@@ -143,7 +175,10 @@ def confirm(f: Dict[str, Any]) -> Tuple[bool, Any]:
     tries: List[Dict[str, Any]] = [dict(f["assignment"])]
     if f["case"]["kind"] == "zone":
         for name, inst in _zone_candidates():
-            tries.append({**f["assignment"], "zone_name": name, "now": inst})
+            tries.append({**f["assignment"], "zone_name": name, "now": inst, "earlier": inst})
+            if dict(map(tuple, f["choices"])).get("second_evaluation_in_the_same_process"):
+                for back in (30 * MIN, 2 * 3600 * US, 5 * 3600 * US, 11 * 3600 * US):
+                    tries.append({**f["assignment"], "zone_name": name, "now": inst, "earlier": inst - back})
     elif f["case"]["kind"] == "td":
         a = f["assignment"]
         for now in (a.get("now", 0), 1_700_000_000 * US + 123, 1_709_251_199 * US):
